@@ -12,6 +12,7 @@ import (
 	"os"
 	"strconv"
 	"strings"
+	"time"
 )
 
 type verifAssumeFailed struct{}
@@ -161,4 +162,17 @@ func verifOpaqueBytes(n int) []byte {
 		n = 1 << 24 // native replay cannot allocate arbitrary sizes; lengths beyond 16 MiB are clamped (replay then reports unconfirmed)
 	}
 	return make([]byte, n)
+}
+
+// verifRunUntilBlocked: natively the function is simply run on its own goroutine
+// and reported as parked when it has not returned after a short while.
+func verifRunUntilBlocked(f func()) bool {
+	done := make(chan struct{})
+	go func() { defer close(done); f() }()
+	select {
+	case <-done:
+		return false
+	case <-time.After(300 * time.Millisecond):
+		return true
+	}
 }
